@@ -807,7 +807,7 @@ def run(ctx, deep=False):
     # ---- (1) evaluator closure / SQLite value per row
     c1, i1, r1 = [], [], []
     c2, i2, r2 = [], [], []
-    n_eval = 3000 if thorough else 800
+    n_eval = 3000 if thorough else 550
     pool_rows = [gen_row(ctx.rng) for _ in range(60)]
     pool_rows += [([a, b, 0], [s, "a"]) for a, b in itertools.product([None, -7, 0, 3], repeat=2) for s in (None, "a%b")]
     for n in range(n_eval):
@@ -838,7 +838,7 @@ def run(ctx, deep=False):
 
     # ---- (2) the bulk statements end to end
     cases = witnesses()
-    n_dml = 4000 if thorough else 800
+    n_dml = 4000 if thorough else 550
     for _ in range(n_dml):
         cases.append(gen_dml_case(ctx.rng, weird=ctx.rng.random() < 0.1))
     c3, i3, r3 = [], [], []
@@ -867,7 +867,7 @@ def run(ctx, deep=False):
 
     # ---- (3) ORM bulk UPDATE by primary key / bulk INSERT..RETURNING
     c4, i4, r4 = [], [], []
-    for _ in range(2500 if thorough else 400):
+    for _ in range(2500 if thorough else 300):
         sc = gen_bulk_pk(ctx.rng)
         line, why = run_bulk_pk(w, sc)
         ctx.case(("bulkpk", str(sc)), nontrivial=len(sc["params"]) > 1)
